@@ -395,3 +395,55 @@ func H13_host() {
 	}
 	sv.Reach("two-evaluations")
 }
+
+// H13_resolve: one engine compiles the same source text twice, against
+// environments in which its calls resolve to different overloads (a generic
+// built-in for lists and maps, a monomorphic one for numbers and strings), in
+// either order: the second compilation is that of a fresh engine - it
+// succeeds, and gives the fresh engine's result on the same data.
+func H13_resolve() {
+	srcs := []string{"x == y", "x != y", "len(x) + len(y)", "string(x) == string(y)", "[x] == [y]", "max(len(x), 1)"}
+	src := srcs[sv.Choice("prog", len(srcs))]
+	tys := []*types.Type{types.Str, types.List(types.Num), types.Map(types.Str, types.Num), types.Num}
+	n := len(tys)
+	if src == "len(x) + len(y)" || src == "max(len(x), 1)" {
+		n = 3 // len has no overload for numbers
+	}
+	t1 := tys[sv.Choice("T1", n)]
+	t2 := tys[sv.Choice("T2", n)]
+	b := sv.Choice("backend", hx.NBackends)
+	e := exprWith(b)
+	env := func(t *types.Type) *types.Env {
+		te := types.NewEnv()
+		te.Put("x", t)
+		te.Put("y", t)
+		return te
+	}
+	_, err := e.Compile(src, env(t1))
+	sv.Assert("first-compilation", err == nil)
+	c2, err := e.Compile(src, env(t2))
+	sv.Assert("second-compilation-succeeds-like-the-first-of-a-fresh-engine", err == nil)
+	fresh, ferr := exprWith(b).Compile(src, env(t2))
+	sv.Assert("fresh-engine-compiles", ferr == nil)
+	if err != nil || ferr != nil {
+		return
+	}
+	hx.NumPool = []float64{1, 2.5}
+	hx.MaxLenQuick = 2
+	xv, yv := hx.AnyVal(t2, "x"), hx.AnyVal(t2, "y")
+	hx.NumPool = nil
+	hx.MaxLenQuick = 3
+	venv := func() *val.Env {
+		ve := val.NewEnv()
+		ve.Put("x", xv)
+		ve.Put("y", yv)
+		return ve
+	}
+	r1, err1 := c2(venv())
+	r2, err2 := fresh(venv())
+	sv.Assert("evaluates-like-a-fresh-engine", (err1 == nil) == (err2 == nil))
+	if err1 == nil && err2 == nil {
+		sv.Assert("same-result-as-a-fresh-engine", hx.RefSameVal(r1, r2))
+	}
+	sv.Reach("recompiled")
+}
